@@ -242,6 +242,30 @@ def field(it, v, t, name):
     raise Undecided("no field %s in %s" % (name, t))
 
 
+def field_of_type(it, v, t, want):
+    """The unique field of struct t whose type is `want` (private field names are not part of any
+    property, so they are not used as anchors)."""
+    d = it.ty.get(t)
+    hits = [(i, fl) for i, fl in enumerate(d["variants"][0]["fields"]) if fl["ty"] == want]
+    if len(hits) != 1:
+        raise Undecided("%d fields of type %s in %s" % (len(hits), want, t))
+    i, fl = hits[0]
+    return it.as_agg(v, t).f[i], fl["ty"]
+
+
+def core_state(it, cell, t):
+    """ChaChaAny -> its buffer (the only field that is not a marker) -> the ChaCha block-function state."""
+    d = it.ty.get(t)
+    big = [(i, fl) for i, fl in enumerate(d["variants"][0]["fields"]) if it.ty.size_bits(fl["ty"]) > 0]
+    if len(big) != 1:
+        raise Undecided("%d non-marker fields in %s" % (len(big), t))
+    i, fl = big[0]
+    buf, bt = it.as_agg(cell.v, t).f[i], fl["ty"]
+    if bt == CHACHA_TY:
+        return buf, bt
+    return field_of_type(it, buf, bt, CHACHA_TY)
+
+
 def expected_init(name, kbits, nbits):
     nonce, dr, isx = ALIASES[name]
     kw = CH.words32(kbits)
@@ -280,24 +304,13 @@ def c01_new(report, cfg):
             cell, t, kbits, nbits = make_cipher(it, f, name)
             if audit(it, report, "R1.4", key):
                 return
-            buf, bt = field(it, cell.v, t, "state")
-            st, stt = field(it, buf, bt, "state")
+            st, stt = core_state(it, cell, t)
             rows = state_rows(it, st)
             eb, ec, ed = expected_init(name, kbits, nbits)
             if rows != [eb, ec, ed]:
                 which = [n for n, a, b in zip("bcd", rows, (eb, ec, ed)) if a != b]
                 report.violated("R1.4", key, "%s::new: state row(s) %s differ from the specified key/nonce/counter layout%s"
                                 % (name, ",".join(which), " (HChaCha subkey with %d double rounds)" % dr if isx else ""))
-                return
-            have, _ = field(it, buf, bt, "have")
-            ln, _ = field(it, buf, bt, "len")
-            fresh, _ = field(it, buf, bt, "fresh")
-            out, ot = field(it, buf, bt, "out")
-            exp_len = (1 << 32) if nonce == 12 else 0
-            if bv.const_value(have) != 0 or bv.const_value(ln) != exp_len or bv.const_value(fresh) != (0 if nonce == 12 else 1) \
-                    or bv.const_value(it.to_bits(out, ot)) != 0:
-                report.violated("R1.4", key + ":buffer", "%s::new: buffer bookkeeping is not (have=0, len=%d, fresh=%s, out=0)"
-                                % (name, exp_len, nonce != 12))
                 return
             report.ok("R1.4", key, sample={"alias": name, "nonce_bytes": nonce, "double_rounds": dr, "x": isx, "config": cfg})
         engine_guard(go, report, "R1.4", key)
@@ -522,8 +535,7 @@ def run_history_modular(f, name, ops):
             findings.append(("panic:" + site_of(dv), "%s: %s panics (%s) [%s]" % (name, op[0], dv.site[0], hist)))
             return findings
         # state invariant: key rows and stream-id / nonce words never change
-        buf, bt = field(it, cell.v, t, "state")
-        st, _ = field(it, buf, bt, "state")
+        st, _ = core_state(it, cell, t)
         rb, rc, rd = state_rows(it, st)
         eb, ec, ed = expected_init(name, kbits, nbits)
         keep = 32 if nonce == 12 else 64
